@@ -702,6 +702,11 @@ impl Tree {
 
     /// maximum withdraw of an input cell and the interest part (0 for ordinary cells).
     /// NervosDAO phase-2 withdrawals: counted*AR_w/AR_d + occupied.
+    pub fn dao_withdraw_value(&self, cell: &LiveCell, parent: &H) -> Result<(u64, u64), String> {
+        let tx = TransactionBuilder::default().build();
+        self.withdraw_value(cell, &tx, parent)
+    }
+
     fn withdraw_value(&self, cell: &LiveCell, tx: &TransactionView, parent: &H) -> Result<(u64, u64), String> {
         let c = cap(&cell.output);
         let is_dao = cell
